@@ -116,7 +116,8 @@ class Ctx:
                 kf_hits.setdefault(f['key'], []).append(f)
             else:
                 violations.append(f)
-        vdir = os.path.join(VERIF, 'evidence', 'violations')
+        scratch = bool(os.environ.get('SCV_NO_EVIDENCE'))
+        vdir = os.path.join(VERIF, 'evidence', 'violations') if not scratch else os.path.join('/tmp', 'scv-violations-%d' % os.getpid())
         os.makedirs(vdir, exist_ok=True)
         for fn_ in os.listdir(vdir):
             if fn_.startswith(self.prop + '-'):
@@ -143,7 +144,11 @@ class Ctx:
                 print('     at %s' % f['site'], file=out)
             print('     key %s' % f['key'], file=out)
             print('VIOLATION property=%s replay=%s' % (self.prop, path), file=out)
-        self.write_evidence(violations, kf_hits, stale)
+        if not scratch:
+            self.write_evidence(violations, kf_hits, stale)
+        else:
+            import shutil
+            shutil.rmtree(vdir, ignore_errors=True)
         if self.checker_defects:
             for d in self.checker_defects:
                 print('CHECKER-DEFECT: %s' % d, file=out)
